@@ -177,7 +177,7 @@ func (x *Exec) newState(m Mode) *State {
 }
 
 func (x *Exec) verify(fn *ssa.Function, c *Contract) {
-	m := Mode{BV: c.Mode == "bv"}
+	m := modeOf(c.Mode)
 	x.mode = m
 	st := x.newState(m)
 	fr := x.newFrame(fn, nil, st)
@@ -437,7 +437,7 @@ func (ld *Loaded) verifyLemma(l *Lemma) *FuncResult {
 				panic(r)
 			}
 		}()
-		m := Mode{BV: l.Mode == "bv"}
+		m := modeOf(l.Mode)
 		x.mode = m
 		st := x.newState(m)
 		env := &CEnv{x: x, st: st, vars: map[string]*Val{}, pkg: l.Pkg, contract: c}
